@@ -146,6 +146,10 @@ def run(repo, rep, tier):
     c = CFG(gb, exc_edges=False)
     parses = c.stmts_matching(lambda st: isinstance(st, ast.Assign) and 'Banner.parse(line)' in unparse(st.value))
     apps = c.stmts_matching(lambda st: isinstance(st, ast.Expr) and unparse(st.value) == 'self.__header.append(line)')
+    for n in walk_no_nested(gb):
+        if isinstance(n, ast.Call) and unparse(n.func) == 'Banner.parse' and n.args and unparse(n.args[0]) != 'line':
+            rep.check('separation', 'the line is handed to Banner.parse unmodified', False, n, 'get_banner hands %s to Banner.parse: characters removed here never reach the validity flag' % unparse(n.args[0]))
+            parses = c.stmts_matching(lambda st: isinstance(st, ast.Assign) and 'Banner.parse(' in unparse(st.value))
     rep.floor('separation', 'banner parse site', len(parses), 1)
     rep.floor('separation', 'header append site', len(apps), 1)
     rep.check('separation', 'a line is appended to the header only after it was tried as a banner', c.always_before(apps, parses), apps[0].stmt, 'header append not preceded by Banner.parse')
@@ -166,7 +170,41 @@ def run(repo, rep, tier):
     ln = [n for n in walk_no_nested(gb) if isinstance(n, ast.Assign) and unparse(n.targets[0]) == 'line']
     rep.check('separation', 'lines are read with read_line()', len(ln) == 1 and unparse(ln[0].value) == 'self.read_line()', ln[0] if ln else gb, 'line source changed')
     rl = repo.func('readbuf', 'ReadBuf.read_line')
-    rep.check('separation', 'read_line decodes leniently (total) and strips the line ending', "decode('utf-8', 'replace')" in unparse(rl) and 'rstrip()' in unparse(rl), rl, 'read_line decoding changed')
+    # typed walk of read_line's method chain: bytes from the buffer's readline(); byte-level (r)strip() removes the line ending only
+    # (ASCII blanks); after decode() the value is text and nothing may remove characters any more -- str.strip() also drops
+    # \x1c-\x1f and every Unicode space, which would hide non-conforming trailing characters from the validity flag
+    rets = [n for n in walk_no_nested(rl) if isinstance(n, ast.Return)]
+    if len(rets) != 1 or len(rl.body) != 1:
+        raise AnalysisError('ReadBuf.read_line is no longer a single return of a method chain')
+    chain = []
+    cur = rets[0].value
+    while isinstance(cur, ast.Call) and isinstance(cur.func, ast.Attribute):
+        chain.append(cur)
+        cur = cur.func.value
+    chain.reverse()
+    if not chain or unparse(chain[0]) != 'self._buf.readline()':
+        raise AnalysisError('ReadBuf.read_line does not start from self._buf.readline()')
+    typ = 'bytes'
+    stripped_eol = False
+    for call in chain[1:]:
+        m = call.func.attr
+        if m == 'decode' and typ == 'bytes':
+            args = [a.value for a in call.args if isinstance(a, ast.Constant)] + [k.value.value for k in call.keywords if isinstance(k.value, ast.Constant)]
+            rep.check('separation', 'read_line decodes leniently (total)', any(a in ('replace', 'backslashreplace') for a in args), call, 'read_line decodes strictly or drops undecodable bytes (%s): invalid bytes raise or vanish instead of being shown as "?"' % unparse(call)[-40:])
+            typ = 'str'
+        elif m in ('rstrip', 'strip', 'lstrip') and typ == 'bytes':
+            okarg = not call.args or (isinstance(call.args[0], ast.Constant) and isinstance(call.args[0].value, bytes) and set(call.args[0].value) <= set(b' \t\r\n'))
+            rep.check('separation', 'byte-level strip removes line-ending blanks only', okarg and m != 'lstrip', call, 'read_line strips %s from the raw line' % unparse(call)[-40:])
+            stripped_eol = stripped_eol or m in ('rstrip', 'strip')
+        elif m in ('rstrip', 'strip', 'lstrip') and typ == 'str':
+            okarg = bool(call.args) and isinstance(call.args[0], ast.Constant) and isinstance(call.args[0].value, str) and set(call.args[0].value) <= set('\r\n')
+            rep.check('separation', 'no text-level strip between the socket and the validity flag', okarg, call,
+                      'read_line strips the DECODED line (%s): str.%s() also removes the control characters \\x1c-\\x1f and every Unicode space, so a banner ending in such a character is shown without it and reported as conforming' % (unparse(call)[-30:], m))
+            stripped_eol = stripped_eol or (okarg and m in ('rstrip', 'strip'))
+        else:
+            rep.check('separation', 'read_line applies only decode and line-ending strip', False, call, 'read_line applies .%s() to the raw line before the banner is validated' % m)
+    if not any(f.rule == 'separation' and 'read_line' in f.message for f in rep.findings):
+        rep.check('separation', 'read_line yields text and strips the line ending', typ == 'str' and stripped_eol, rl,       'read_line returns %s%s' % (typ, '' if stripped_eol else ' with the line ending left in place'))
     hp = [n for n in walk_no_nested(outf) if isinstance(n, ast.Call) and unparse(n.func) == 'out.info' and '(gen) header' in unparse(n)]
     ok = len(hp) == 1 and "'\\n'.join(header)" in unparse(hp[0]) and any(unparse(t) == 'len(header) > 0' and p for t, p, k in path_condition(hp[0]))
     rep.check('separation', 'header lines are reported as header text', ok, hp[0] if hp else outf, 'header output changed')
